@@ -154,6 +154,12 @@ def enum_pairs(fc: FileCtx, kind_ids=None):
 
 
 def load_file(desc):
+    if desc["src"] == "text":
+        return desc["text"]
+    if desc["src"] == "wild":
+        from mc.gen import wild
+
+        return wild.WILD[desc["lang"]][desc["name"]]
     if desc["src"] == "corpus":
         p = CORPUS / canon.EXT[desc["lang"]] / desc["name"]
         return p.read_text(encoding="utf-8")
@@ -205,6 +211,20 @@ def generated(lang, thorough):
     out.append({"src": "gen", "lang": lang, "id": "rich", "spec": {"lang": lang, "items": [programs.func("f0", body), {"k": "comment", "v": "mblock"}, programs.func("f1", [programs.S("simple")])]}})
     for st in canon.STYLES[lang]:
         out.append({"src": "gen", "lang": lang, "id": f"style:{st}", "spec": {"lang": lang, "items": [programs.func("f0", [programs.S("simple"), programs.S("if")], st)]}})
+    # files that already carry suppression markers: one on its own line directly above a header (suppresses nothing), one
+    # trailing a function's name line (suppresses it); neighbouring insertions must not change either
+    text, funcs = canon.render(programs.skeletons(lang)["two"])
+    lines = text.split("\n")
+    lead = "#" if lang == "Python" else "//"
+    f0, f1 = funcs[0], funcs[1]
+    lines[f0["start"][0] - 1] += f"  {lead} nocl: measured elsewhere"
+    ind = len(lines[f1["start"][0] - 1]) - len(lines[f1["start"][0] - 1].lstrip())
+    lines.insert(f1["start"][0] - 1, " " * ind + f"{lead} nocl (own line: does not apply to the next function)")
+    out.append({"src": "text", "lang": lang, "id": "with-nocl-markers", "text": "\n".join(lines)})
+    from mc.gen import wild
+
+    for name, _t in wild.snippets(lang):
+        out.append({"src": "wild", "lang": lang, "id": f"wild:{name}", "name": name})
     return out
 
 
